@@ -173,22 +173,22 @@ def root_cause(s, d, kind, got=None):
     """group a disagreement on string s of decoder index d by the spec-level shape of s (not by reading the C code)"""
     tc, lc = shape(s)
     if tc in ('long-alone', 'long-first-group-zero') and kind in ('accepts', 'value', 'oob-read', 'consumed>input'):
-        return 'der:tag-long-form-without-number-accepted'
+        return 'F10:der-tag-long-form-without-number-accepted'
     if tc.endswith('-ending-at-limit') and kind == 'rejects':
-        return 'der:tag-ending-at-4th-or-last-octet-rejected'
+        return 'F11:der-tag-ending-at-4th-or-last-octet-rejected'
     tl = C.der_tl_dec(s)
     if lc == 'long-8-near-SIZE_MAX' and kind in ('accepts', 'oob-read', 'value', 'consumed>input'):
-        return 'der:length-near-SIZE_MAX-wraps'
+        return 'F12a:der-length-near-SIZE_MAX-wraps'
     if d == D_SIZE and kind in ('accepts', 'oob-read', 'consumed>input') and tl and (tl[1] == 0 or tl[1] > len(s) - tl[2]):
-        return 'der:TSIZE-value-absent-or-short'
+        return 'F12b:der-TSIZE-value-absent-or-short'
     if d in (D_OID, D_OIDFROM) and kind == 'accepts' and C.der_dec2(s, 0x06):
-        return 'der:OID-empty-or-unterminated-subidentifier-accepted'
+        return 'G4:der-OID-empty-or-unterminated-subidentifier-accepted'
     if d == D_PSTR and kind == 'accepts' and tl and b'\0' in s[tl[2]:]:
-        return 'der:PSTR-NUL-accepted'
+        return 'G5:der-PSTR-NUL-accepted'
     if d == D_BIT and kind == 'accepts' and C.der_dec(s) and len(C.der_dec(s)[1]) >= 2 and 1 <= C.der_dec(s)[1][0] <= 7:
-        return 'der:BIT-nonzero-padding-accepted'
+        return 'G6:der-BIT-nonzero-padding-accepted'
     if d == D_SEQ and kind == 'gate':
-        return 'der:encoder-rejects-valid-tag'
+        return 'G3:der-encoder-rejects-valid-tag'
     return 'other:%s:%s:tag=%s,len=%s' % (DNAME[d], kind, tc, lc)
 
 def der_judge(s, raw, which=W_FULL):
@@ -477,7 +477,7 @@ def apdu_judge(s, raw):
     elif cret == 1:
         if gram is None:
             body = s[4:]
-            key = 'apdu:cmd:extended-Lc-0000-accepted' if len(body) >= 3 and body[0] == 0 and body[1:3] == b'\0\0' and len(body) != 3 else 'apdu:cmd:accepted-outside-grammar'
+            key = 'G7:apdu-cmd-extended-Lc-0000-accepted' if len(body) >= 3 and body[0] == 0 and body[1:3] == b'\0\0' and len(body) != 3 else 'apdu:cmd:accepted-outside-grammar'
             out.append((key, 'apduCmdDec', 'accepts', 'accepted (cdf_len %d, rdf_len %d); apdu.h items 2-5 admit no such command' % (cdf_len, rdf_len)))
         else:
             want = (gram[0], gram[1], gram[2], gram[3], len(gram[4]), gram[5], dig(gram[4]))
@@ -486,7 +486,7 @@ def apdu_judge(s, raw):
             elif not flags & 4:
                 out.append(('apdu:cmd:size', 'apduCmdDec', 'value', 'size of the first (null output) and the second call differ or != sizeof + cdf_len'))
             elif not flags & 1:
-                out.append(('apdu:cmd:non-shortest-form-accepted', 'apduCmdDec', 'accepts',
+                out.append(('G8:apdu-cmd-non-shortest-form-accepted', 'apduCmdDec', 'accepts',
                             'accepted (cdf_len %d, rdf_len %d) but apduCmdEnc of the decoded command gives %d octets, not these %d (Lc/Le forms %s)' %
                             (cdf_len, rdf_len, enc_len, len(s), C.apdu_cmd_forms(s))))
     else:
@@ -597,7 +597,7 @@ def tagsweep_job(job):
             r = L.sz('derTLEnc', None, t, 0)
             v = C.der_tag_is_valid(t)
             if (r != SIZE_MAX) != v:
-                key = 'der:encoder-rejects-valid-tag' if v else 'der:encoder-accepts-invalid-tag'
+                key = 'G3:der-encoder-rejects-valid-tag' if v else 'der:encoder-accepts-invalid-tag'
                 F.add(key, (t.bit_length(), '%08x' % t, 0), {'cfg': CFG, 'kind': 'case', 'fn': 'der.TL', 'case': {'tag': t, 'len': 0}},
                       'derTLEnc(0, tag %#x, 0) returns %s; by the tag grammar of der.h the word is %s' % (t, 'SIZE_MAX' if r == SIZE_MAX else r, 'a valid tag' if v else 'not a tag'), 'derTLEnc')
     return {'n': n, 'find': F.d, 'accepted': 0}
@@ -665,13 +665,13 @@ def enc_classify(fname, case, res, exp, msg):
     tag = case.get('tag')
     if fname in ('der.TL', 'der.TLV', 'der.SIZE', 'der.UINT', 'der.SEQ', 'der.BIT', 'der.PSTR') and tag is not None and C.der_tag_is_valid(tag):
         if res.get('ret') == SIZE_MAX and callable(exp.get('ret')) is False and exp.get('ret') != SIZE_MAX:
-            return 'der:encoder-rejects-valid-tag'
+            return 'G3:der-encoder-rejects-valid-tag'
         if len(C.der_t_enc(tag)) == 4 and res.get('ret') == exp.get('ret'):
-            return 'der:tag-ending-at-4th-or-last-octet-rejected'
+            return 'F11:der-tag-ending-at-4th-or-last-octet-rejected'
     if fname in ('der.TL',) and case.get('len') == SIZE_MAX:
         return 'obs:length-SIZE_MAX'
     if fname == 'btokSM.cmd' and callable(exp.get('ret')):
-        return 'sm:cmd-wrap-protected-field-over-65535-encoded'
+        return 'G2:sm-cmd-wrap-protected-field-over-65535-encoded'
     return 'enc:%s:%s' % (fname, re.sub(r'[0-9a-f]{6,}|\d+', '#', msg)[:60])
 
 def enc_job(item):
@@ -998,17 +998,17 @@ def oid_mutant_strings(tier):
             out.append((label, m))
     return out
 
-ROOT_BY_CLASS = (('int:empty', 'der:TSIZE-value-absent-or-short'), ('pstr:octet-00', 'der:PSTR-NUL-accepted'), ('oid:unterminated', 'der:OID-empty-or-unterminated-subidentifier-accepted'),
-                 ('oid:empty', 'der:OID-empty-or-unterminated-subidentifier-accepted'), ('oid:last-octet-dropped', 'der:OID-empty-or-unterminated-subidentifier-accepted'),
-                 ('len:SIZE_MAX-k', 'der:length-near-SIZE_MAX-wraps'), ('bit:unused', 'der:BIT-nonzero-padding-accepted'))
+ROOT_BY_CLASS = (('int:empty', 'F12b:der-TSIZE-value-absent-or-short'), ('pstr:octet-00', 'G5:der-PSTR-NUL-accepted'), ('oid:unterminated', 'G4:der-OID-empty-or-unterminated-subidentifier-accepted'),
+                 ('oid:empty', 'G4:der-OID-empty-or-unterminated-subidentifier-accepted'), ('oid:last-octet-dropped', 'G4:der-OID-empty-or-unterminated-subidentifier-accepted'),
+                 ('len:SIZE_MAX-k', 'F12a:der-length-near-SIZE_MAX-wraps'), ('bit:unused', 'G6:der-BIT-nonzero-padding-accepted'))
 
 def crash_key(stderr, label):
     k, m = C07.classify(stderr)
     fr = re.findall(r'#\d+ 0x[0-9a-f]+ in (\w+) ', stderr)
     if 'derTSIZEDec' in fr[:2]:
-        return 'der:TSIZE-value-absent-or-short', m
+        return 'F12b:der-TSIZE-value-absent-or-short', m
     if mut_class(label).startswith('len:SIZE_MAX-k') and any(f.startswith('der') for f in fr[:3]):
-        return 'der:length-near-SIZE_MAX-wraps', m
+        return 'F12a:der-length-near-SIZE_MAX-wraps', m
     return 'crash:' + k, m
 
 def mut_job(item):
@@ -1040,6 +1040,8 @@ def mut_job(item):
             for pre, k in ROOT_BY_CLASS:
                 if mc.startswith(pre):
                     key = k
+        if key is None and tgt.startswith('smcmd') and mc.startswith('lc:') and kind == 'accepts':
+            key = 'G9:sm-cmd-mismatching-Lc-Le-forms-accepted'
         if key is None:
             key = 'mut:%s:%s:%s' % (re.sub(r'[\d(),+]+.*', '', tgt), mc, kind)
         out['msg'] = msg; out['key'] = key; out['kind'] = kind
@@ -1071,15 +1073,36 @@ def symbolize(stderr):
             continue
         k = (mod, off)
         if k not in _sym_cache:
+            nm = nm_lookup(mod, int(off, 16))
             try:
                 r = subprocess.run(['/usr/bin/llvm-symbolizer-14', '--obj=' + mod, '--functions=short', '--no-inlines', '0x' + off],
                                    stdout=subprocess.PIPE, stderr=subprocess.DEVNULL, text=True, timeout=60)
                 ls = r.stdout.strip().splitlines()
-                _sym_cache[k] = (ls[0] if ls else '?', ls[1] if len(ls) > 1 else '')
+                name = ls[0] if ls and ls[0] != '??' else nm
+                _sym_cache[k] = (name, ls[1] if len(ls) > 1 else '')
             except Exception:
-                _sym_cache[k] = ('?', '')
+                _sym_cache[k] = (nm, '')
         out.append(_sym_cache[k])
     return out
+
+_nm = {}
+def nm_lookup(mod, off):
+    """symbol table lookup (static functions included): name of the function containing the offset"""
+    import subprocess, bisect
+    if mod not in _nm:
+        tab = []
+        try:
+            r = subprocess.run(['nm', '-n', '--defined-only', mod], stdout=subprocess.PIPE, stderr=subprocess.DEVNULL, text=True, timeout=120)
+            for line in r.stdout.splitlines():
+                p = line.split()
+                if len(p) == 3 and p[1] in 'tTwW':
+                    tab.append((int(p[0], 16), p[2]))
+        except Exception:
+            pass
+        _nm[mod] = (sorted(tab), [a for a, _ in sorted(tab)])
+    tab, addrs = _nm[mod]
+    i = bisect.bisect_right(addrs, off) - 1
+    return tab[i][1] if i >= 0 else '?'
 
 def crash_info(r, label=''):
     """pmap crash record -> (root-cause key, message)"""
@@ -1098,11 +1121,11 @@ def crash_info(r, label=''):
         top = names[0] if names else '?'
         msg = 'AddressSanitizer: %s (%s) in %s %s (stack: %s)' % (kind, ' of size '.join(acc.groups()) if acc else '?', top, fr[0][1].split('/')[-1] if fr else '', ' < '.join(names[:5]))
         if 'derTSIZEDec' in names[:2]:
-            return 'der:TSIZE-value-absent-or-short', msg
+            return 'F12b:der-TSIZE-value-absent-or-short', msg
         if mut_class(label).startswith('len:SIZE_MAX-k') and any(f.startswith('der') for f in names[:3]):
-            return 'der:length-near-SIZE_MAX-wraps', msg
+            return 'F12a:der-length-near-SIZE_MAX-wraps', msg
         if 'derSIDDec2' in names[:2]:
-            return 'der:OIDDec2-reads-past-the-end-of-the-expected-identifier', msg
+            return 'G1:der-OIDDec2-reads-past-the-end-of-the-expected-identifier', msg
         return 'crash:asan:%s:%s' % (kind, top), msg
     if r.get('crash') == 'timeout':
         return 'crash:timeout', 'does not terminate within the case timeout'
@@ -1151,7 +1174,7 @@ def sub(tier, what, outpath):
             if 'harness_error' in r:
                 harness.append('%s: %s' % (name, r['harness_error'][-600:])); continue
             if 'crash' in r:
-                k, m = crash_info(r)
+                k, m = crash_info(r, describe(j))
                 F.add(k, (0, describe(j), 0), {'cfg': CFG, 'kind': 'job', 'part': name, 'job': jsonable(j)}, '%s %s: %s' % (name, describe(j), m), name)
                 continue
             F.merge(r['find']); n += r['n']
@@ -1242,18 +1265,19 @@ def short_hex(b):
 
 OBSERVATION_KEYS = ('obs:',)
 WHY = {
-    'der:tag-long-form-without-number-accepted': 'der.h: a long tag is (t_{r-1}|128)...t_0 with t_{r-1} != 0 and number >= 31, and decoders return SIZE_MAX on a format error',
-    'der:tag-ending-at-4th-or-last-octet-rejected': 'der.h: the tag is a u32 word that is the ready code, so 4-octet tags are tags (derEnc emits them); a tag whose last octet is the 4th / the last one of the buffer is complete',
-    'der:length-near-SIZE_MAX-wraps': 'der.h: derDec returns the exact length of the DER code [<=count]der, i.e. T, L and L octets of V lie inside the buffer',
-    'der:TSIZE-value-absent-or-short': 'der.h: INTEGER contents are o1...on with n >= 1 inside [<=count]der; the return value is the exact code length',
-    'der:OID-empty-or-unterminated-subidentifier-accepted': 'oid.h: n >= 2 numbers, every sub-identifier complete; property: accepted codes re-encode to themselves',
-    'der:OIDDec2-reads-past-the-end-of-the-expected-identifier': 'C08: a decoder touches nothing outside its input and the documented arguments (here: the NUL-terminated string oid)',
-    'der:PSTR-NUL-accepted': 'der.h / str.h: a printable string consists of letters, digits and " \'()+,-./:=?"; NUL is not among them',
-    'der:BIT-nonzero-padding-accepted': 'der.h: the bit string is padded with ZERO bits (DER, X.690 11.2.1); accepted code does not re-encode to itself',
-    'der:encoder-rejects-valid-tag': 'der.h: "the error is a wrong format of tag"; the word follows the tag grammar of der.h (and derTLDec accepts its code)',
-    'apdu:cmd:extended-Lc-0000-accepted': 'apdu.h item 5: the two value octets of an extended Lc are different from 0x0000',
-    'apdu:cmd:non-shortest-form-accepted': 'C08 (accepted => re-encodes to itself); apduCmdDec itself rejects the other non-shortest forms',
-    'sm:cmd-wrap-protected-field-over-65535-encoded': 'btok.h: ERR_OK = the command was encoded and protected; here Lc* is truncated mod 65536 and btokSMCmdUnwrap rejects the result',
+    'F10:der-tag-long-form-without-number-accepted': 'der.h: a long tag is (t_{r-1}|128)...t_0 with t_{r-1} != 0 and number >= 31, and decoders return SIZE_MAX on a format error',
+    'F11:der-tag-ending-at-4th-or-last-octet-rejected': 'der.h: the tag is a u32 word that is the ready code, so 4-octet tags are tags (derEnc emits them); a tag whose last octet is the 4th / the last one of the buffer is complete',
+    'F12a:der-length-near-SIZE_MAX-wraps': 'der.h: derDec returns the exact length of the DER code [<=count]der, i.e. T, L and L octets of V lie inside the buffer',
+    'F12b:der-TSIZE-value-absent-or-short': 'der.h: INTEGER contents are o1...on with n >= 1 inside [<=count]der; the return value is the exact code length',
+    'G4:der-OID-empty-or-unterminated-subidentifier-accepted': 'oid.h: n >= 2 numbers, every sub-identifier complete; property: accepted codes re-encode to themselves',
+    'G1:der-OIDDec2-reads-past-the-end-of-the-expected-identifier': 'C08: a decoder touches nothing outside its input and the documented arguments (here: the NUL-terminated string oid)',
+    'G5:der-PSTR-NUL-accepted': 'der.h / str.h: a printable string consists of letters, digits and " \'()+,-./:=?"; NUL is not among them',
+    'G6:der-BIT-nonzero-padding-accepted': 'der.h: the bit string is padded with ZERO bits (DER, X.690 11.2.1); accepted code does not re-encode to itself',
+    'G3:der-encoder-rejects-valid-tag': 'der.h: "the error is a wrong format of tag"; the word follows the tag grammar of der.h (and derTLDec accepts its code)',
+    'G7:apdu-cmd-extended-Lc-0000-accepted': 'apdu.h item 5: the two value octets of an extended Lc are different from 0x0000',
+    'G8:apdu-cmd-non-shortest-form-accepted': 'C08 (accepted => re-encodes to itself); apduCmdDec itself rejects the other non-shortest forms',
+    'G9:sm-cmd-mismatching-Lc-Le-forms-accepted': 'apdu.h item 4: the form of Le must correspond to the form of Lc (short with short, extended with extended)',
+    'G2:sm-cmd-wrap-protected-field-over-65535-encoded': 'btok.h: ERR_OK = the command was encoded and protected; here Lc* is truncated mod 65536 and btokSMCmdUnwrap rejects the result',
 }
 
 def run(tier):
